@@ -280,16 +280,46 @@ def run(ctx):
                'aniso keyword of bipole')
     an = [n for n in ast.walk(ef) if isinstance(n, ast.Assign) and
           ast.unparse(n.targets[0]) == akw[0].id]
-    ctx.anchor(len(an) == 1 and isinstance(an[0].value, ast.IfExp),
-               'anisotropy in _empymod_fwd')
+    ctx.anchor(len(an) >= 1, 'anisotropy in _empymod_fwd')
     lf = Lifter({ep[0]: sh, ep[1]: sv}, {}, mp.rel, strict=True)
-    got = lf.lift(an[0].value.orelse)
-    ctx.check('C19.L3.empymod', '_empymod_fwd: aniso = sqrt(sigma_h/sigma_v)',
-              equal(got, sp.sqrt(sh / sv)) and ast.unparse(
-                  an[0].value.test).replace(' ', '') == f'{ep[1]}isNone',
-              f'anisotropy is {got}; empymod expects sqrt(rho_v/rho_h) = '
-              'sqrt(sigma_h/sigma_v)', ctx.where(mp, an[0]),
-              sample={'lifted': str(got)})
+    # cases (conditions, value) of the anisotropy: statement guards and
+    # conditional expressions; isotropic (None) exactly when no vertical
+    # conductivity is given -- never decided from the VALUES (the finite
+    # difference of the vertical gradient perturbs sigma_v by a tiny amount)
+    from ..core.canon import negate, ct
+    cases = []
+    for a in an:
+        gs = [t if pol else negate(t) for t, pol in au.guards_of(a, ef)]
+
+        def expand(v, cs):
+            if isinstance(v, ast.IfExp):
+                expand(v.body, cs + [v.test])
+                expand(v.orelse, cs + [negate(v.test)])
+            else:
+                cases.append((cs, v, a))
+        expand(a.value, gs)
+    none_c, val_c = ct(f'{ep[1]} is None'), ct(f'{ep[1]} is not None')
+    nval = 0
+    for cs, v, a in cases:
+        ctxt = sorted({ast.unparse(c).replace(' ', '') for c in cs})
+        if isinstance(v, ast.Constant) and v.value is None:
+            ctx.check('C19.L3.empymod', '_empymod_fwd: isotropic only without '
+                      'vertical conductivity', ctxt == [none_c],
+                      f'aniso=None under {ctxt}: a model with a vertical '
+                      'conductivity is computed as isotropic (the response '
+                      'and the vertical finite-difference gradient ignore '
+                      'sigma_v)', ctx.where(mp, a))
+        else:
+            nval += 1
+            got = lf.lift(v)
+            ctx.check('C19.L3.empymod', '_empymod_fwd: aniso = '
+                      'sqrt(sigma_h/sigma_v)', equal(got, sp.sqrt(sh / sv))
+                      and ctxt == [val_c],
+                      f'anisotropy is {got} under {ctxt}; empymod expects '
+                      'sqrt(rho_v/rho_h) = sqrt(sigma_h/sigma_v) whenever a '
+                      'vertical conductivity is given', ctx.where(mp, a),
+                      sample={'lifted': str(got)})
+    ctx.anchor(nval >= 1, 'anisotropy value in _empymod_fwd')
     call = au.calls(ef, 'bipole')
     ctx.anchor(len(call) == 1, 'bipole call')
     kws = {k.arg: k.value for k in call[0].keywords if k.arg}
